@@ -255,7 +255,7 @@ func TestC17(t *testing.T) {
 				// foreign request by a client of w against another collection
 				ow := cw.cols[(wi+1+rapid.IntRange(0, len(cw.cols)-2).Draw(rt, "other"))%len(cw.cols)]
 				cl := w.clients[rapid.IntRange(0, len(w.clients)-1).Draw(rt, "fclient")]
-				variant := rapid.SampledFrom([]string{"names-other-collection", "foreign-duid-normal", "foreign-duid-subscribe", "foreign-duid-create", "re-register"}).Draw(rt, "variant")
+				variant := rapid.SampledFrom([]string{"names-other-collection", "names-other-collection+create", "names-other-collection+subscribe", "foreign-duid-normal", "foreign-duid-subscribe", "foreign-duid-create", "re-register"}).Draw(rt, "variant")
 				step(fmt.Sprintf("%s.c%d:foreign(%s -> %s)", w.col, cl.idx, variant, ow.col), func() error {
 					if sharedBoth {
 						foreignAfter = true
@@ -286,6 +286,16 @@ func TestC17(t *testing.T) {
 						switch variant {
 						case "names-other-collection":
 							req.Collection = ow.col
+						case "names-other-collection+create":
+							// the message names the other collection and asks to create a key there
+							req.Collection = ow.col
+							p.DUID, p.Key, p.Type = fmt.Sprintf("intruder%08d", len(canon.String())), fmt.Sprintf("intruder-%d", len(canon.String())), typeOfKind(k.Kind)
+							p.CheckPoint, p.Operations, p.Option = &model.CheckPoint{}, nil, uint32(model.PushPullBitCreate)
+						case "names-other-collection+subscribe":
+							// ... or to subscribe to a datatype of the other collection by its key
+							req.Collection = ow.col
+							p.DUID, p.Key, p.Type = fmt.Sprintf("intruder%08d", len(canon.String())), k.Name, typeOfKind(k.Kind)
+							p.CheckPoint, p.Operations, p.Option = &model.CheckPoint{}, nil, uint32(model.PushPullBitSubscribe)
 						default:
 							if k.duid == "" {
 								return nil
